@@ -18,7 +18,13 @@
   stream, streams of a file) — on a fuel value `bytes + 1` that can never run
   out because every block and every stream consumes at least one byte.
   Long loops are tail recursive with array accumulators so that the compiled
-  driver handles 900 kB blocks.
+  driver handles 900 kB blocks (≈ 1 s per 100 kB of plaintext, < 10 s and
+  ≈ 330 MB for a 900 kB block of random data).  Nothing uses well-founded
+  recursion, so the kernel can also evaluate the oracle on small concrete
+  files: `example : decodeFile [...] = .ok [...] := by decide +kernel`
+  (see Lemmas/SpecBasic.lean, `decodeFile_helloBz2`; `DecidableEq (Except ..)`
+  is derived below for that purpose).  `Lemmas/SpecBasic.lean` proves that the
+  fuel of the outer loops never runs out (`decodeFile_ne_fuel`).
 
   The accepted language (strict bzip2 1.0.x):
 
@@ -112,6 +118,8 @@ inductive Reject
   /-- inspector only: something follows the single stream -/
   | trailingData
   deriving Repr, DecidableEq, Inhabited
+
+deriving instance DecidableEq for Except
 
 def Reject.name : Reject → String
   | .empty => "empty"
@@ -480,15 +488,34 @@ def ibwtWalk (l : Array UInt8) (t : Array Nat) : (n : Nat) → (p : Nat) → (ac
   | 0, _, acc => acc
   | n + 1, p, acc => ibwtWalk l t n (t.getD p 0) (acc.push (l.getD p 0))
 
+/-- `bucketStarts l`[c] = number of positions of `l` holding a byte smaller
+    than `c` (256 entries): where the bucket of value `c` starts when the
+    positions are listed in order of their byte value. -/
+def bucketStarts (l : Array UInt8) : Array Nat :=
+  let counts := l.foldl (fun (c : Array Nat) b => c.setIfInBounds b.toNat (c.getD b.toNat 0 + 1))
+    (Array.replicate 256 0)
+  (counts.foldl (fun (acc : Array Nat × Nat) c => (acc.1.push acc.2, acc.2 + c))
+    (Array.mkEmpty 256, 0)).1
+
+/-- The positions `0 … n−1` of `l` in STABLE order of their byte value
+    (a counting sort: position `i` goes to the next free slot of the bucket of
+    `l[i]`).  Same list as `(List.range n).mergeSort (l[·] ≤ l[·])`; written as
+    two folds so that the kernel can evaluate it (`decide +kernel` examples). -/
+def ibwtPerm (l : Array UInt8) : Array Nat :=
+  (l.foldl (fun (s : Array Nat × Array Nat × Nat) b =>
+      let p := s.1.getD b.toNat 0
+      (s.1.setIfInBounds b.toNat (p + 1), s.2.1.setIfInBounds p s.2.2, s.2.2 + 1))
+    (bucketStarts l, Array.replicate l.size 0, 0)).2.1
+
 /-- Inverse Burrows–Wheeler transform.  `l` is the last column of the sorted
     rotation matrix and `origPtr` the row holding the original text.
-    `t` lists the positions of `l` in stable order of their byte value: `t[j]`
-    is the row whose LAST byte is the FIRST byte of row `j`, i.e. the row of
-    the rotation one step to the left.  The text is read off by starting at
-    `t[origPtr]` and following `t`. -/
+    `t = ibwtPerm l` lists the positions of `l` in stable order of their byte
+    value: `t[j]` is the row whose LAST byte is the FIRST byte of row `j`, i.e.
+    the row of the rotation one step to the left.  The text is read off by
+    starting at `t[origPtr]` and following `t`. -/
 def ibwt (l : Array UInt8) (origPtr : Nat) : Option (Array UInt8) :=
   if origPtr < l.size then
-    let t := ((List.range l.size).mergeSort fun i j => l.getD i 0 ≤ l.getD j 0).toArray
+    let t := ibwtPerm l
     some (ibwtWalk l t l.size (t.getD origPtr 0) (Array.mkEmpty l.size))
   else none
 
